@@ -84,3 +84,46 @@ FUNCTIONS = ["formulae.terms.variable.Variable.eval_new_data_categoric", "formul
 
 
 ASSUMPTIONS = ['pandas assumed: pd.Categorical(x, categories=L).codes[r] is the index of x[r] in L or -1; set(x) is the set of row values', "the global formulae.config.config object satisfies Config's invariant (proved in config_c)", 'numpy fancy row indexing M[idx] allocates a fresh array; np.copy allocates']
+
+
+# ---- labels (C04): as many labels as columns, each label = name[level] -----------------------
+def lab(name, level):
+    return f"{name}[{level}]"
+
+
+def _cat(I, parts):
+    """Uninterpreted left fold of string concatenation over interned ids."""
+    from vf.pyvc.opaque import ufun
+    from vf.pyvc.ops import str_term
+    from vf.pyvc.values import SInt, SOpaque
+    f = ufun("str.cat", z3.IntSort(), z3.IntSort(), z3.IntSort())
+    acc = None
+    for p in parts:
+        if isinstance(p, SInt):
+            t = ufun("str.of_int", z3.IntSort(), z3.IntSort())(p.t)
+        elif isinstance(p, int):
+            t = ufun("str.of_int", z3.IntSort(), z3.IntSort())(z3.IntVal(p))
+        elif isinstance(p, SOpaque):
+            t = REG.str_of(I, p).t
+        else:
+            t = str_term(p)
+        acc = t if acc is None else f(acc, t)
+    return SStr(acc)
+
+
+REG.str_concat = _cat
+REG.externals[f"{__name__}.lab"] = lambda I, a, kw, node: _cat(I, [a[0], "[", a[1], "]"])
+
+for cls in ("formulae.terms.variable.Variable", "formulae.terms.call.Call"):
+    REG.classes[cls].field_types["value"] = "arr"
+    kinds = "('numeric',)" if cls.endswith("Variable") else "('numeric', 'offset')"
+    REG.contract(cls + ".labels", returns="list[str]", tags=["C04", "C17"],
+                 requires=["self.kind in ('numeric', 'categoric')" + ("" if cls.endswith("Variable") else " or self.kind == 'offset'"),
+                           f"{M}.shape[1] == len(self.contrast_matrix.labels)"],        # ContrastMatrix.__init__'s guarantee
+                 ensures=[f"implies(self.kind == 'categoric', len(result) == {M}.shape[1] and "
+                          "forall(0, len(result), lambda j: result[j] == lab(self.name, self.contrast_matrix.labels[j])))",
+                          f"implies(self.kind in {kinds} and self.value.ndim == 2 and self.value.shape[1] > 1, "
+                          "len(result) == self.value.shape[1] and forall(0, len(result), lambda j: result[j] == lab(self.name, j)))",
+                          f"implies(self.kind in {kinds} and not (self.value.ndim == 2 and self.value.shape[1] > 1), "
+                          "len(result) == 1 and result[0] == self.name)"])
+FUNCTIONS += ["formulae.terms.variable.Variable.labels", "formulae.terms.call.Call.labels"]
